@@ -592,7 +592,7 @@ func validateTraceBatch(c *Ctx, module, cfg string, traces [][]MapEvent, ids []s
 			if !alive[i] {
 				continue
 			}
-			lines = append(lines, MapEvent{"ev": "reset", "id": ids[i]})
+			lines = append(lines, MapEvent{"ev": "reset", "op": "reset", "id": ids[i]})
 			owner = append(owner, i)
 			pos = append(pos, -1)
 			for j, e := range tr {
@@ -634,6 +634,65 @@ func validateTraceBatch(c *Ctx, module, cfg string, traces [][]MapEvent, ids []s
 	// many rejected traces: the ones found are reported; the remaining traces stay unvalidated
 	c.Extra["validation_stopped_after_rejections"] = len(rejected)
 	return rejected
+}
+
+// validateTraceBatchSharded splits the traces over parallel TLC runs.
+func validateTraceBatchSharded(c *Ctx, module, cfg string, traces [][]MapEvent, ids []string) map[int]int {
+	shards := c.Workers
+	if shards > len(traces) {
+		shards = len(traces)
+	}
+	if shards <= 1 {
+		return validateTraceBatch(c, module, cfg, traces, ids)
+	}
+	per := (len(traces) + shards - 1) / shards
+	type res struct {
+		rej map[int]int
+		err any
+		st  [2]int64
+	}
+	results := make([]res, shards)
+	done := make(chan int, shards)
+	for s := 0; s < shards; s++ {
+		go func(s int) {
+			defer func() {
+				if r := recover(); r != nil {
+					results[s].err = r
+				}
+				done <- s
+			}()
+			lo, hi := s*per, (s+1)*per
+			if hi > len(traces) {
+				hi = len(traces)
+			}
+			if lo >= hi {
+				return
+			}
+			sub := &Ctx{ID: c.ID, Tier: c.Tier, Seed: c.Seed, Work: filepath.Join(c.Work, fmt.Sprintf("vshard%d", s)), Workers: 1, Extra: map[string]any{}}
+			must(os.MkdirAll(sub.Work, 0o755))
+			rej := validateTraceBatch(sub, module, cfg, traces[lo:hi], ids[lo:hi])
+			results[s].rej = map[int]int{}
+			for k, v := range rej {
+				results[s].rej[lo+k] = v
+			}
+			results[s].st = [2]int64{sub.States, sub.Transitions}
+		}(s)
+	}
+	for i := 0; i < shards; i++ {
+		<-done
+	}
+	out := map[int]int{}
+	for _, r := range results {
+		if r.err != nil {
+			panic(r.err)
+		}
+		for k, v := range r.rej {
+			out[k] = v
+		}
+		c.States += r.st[0]
+		c.Transitions += r.st[1]
+	}
+	return out
 }
 
 func checkC10(c *Ctx) {
